@@ -137,6 +137,12 @@ NAME_CLASSES = [
     ("braces", "ev{1}"), ("double-braces", "a{{b}}"), ("brace-word", "t{criterion}"), ("lone-brace", "a{b"), ("percent-paren", "a%(x)sb"),
     ("len-1", "q"), ("len-2", "zq"), ("len-2-digit", "k7"), ("len-3", "zqv"),
     ("only-dquote", '"'), ("only-backtick", "`"), ("trailing-dquote", 'ab"'), ("newline", "a\nb"),
+    # names a convenience layer might reinterpret: Python keywords with a trailing underscore, private-looking names, digit-only
+    # names, signed numbers, ordinals, names of SQL functions / keywords with brackets
+    ("keyword-underscore", "class_"), ("keyword-underscore-2", "in_"), ("keyword-underscore-3", "global_"), ("keyword-double-underscore", "class__"),
+    ("leading-underscore", "_hidden"), ("trailing-underscore", "total_"), ("digits-only", "2024"), ("digit-one", "1"), ("digits-leading-zero", "007"),
+    ("minus-digits", "-1"), ("minus-name", "-name"), ("plus-name", "+name"), ("count-star", "COUNT(*)"), ("true", "true"), ("null", "NULL"),
+    ("superscript-digit", "\u00b2"), ("float-like", "1.5"), ("exp-like", "1e3"),
 ]
 
 
